@@ -19,11 +19,95 @@ import (
 
 type M = map[string]interface{}
 
+// Message-object provenance.  The encodable domain names SPIs, version, exchange type, flags, message ID and the
+// payload list; the header's first-payload / length / PayloadBytes bookkeeping is the encoder's business.  A caller
+// may therefore hand the encoder an object with any history behind it; the history is picked from the message's
+// content so that a case is reproducible.
+const (
+	provLiteral       = iota // struct literal, bookkeeping zero
+	provPlainEncoded         // the object was plain-encoded while it held [first payload, a Nonce]; then the list was completed
+	provParsedHeader         // the header object came out of ParseHeader of a received protected datagram (reply on the request's header)
+	provDecodedObject        // the whole object came out of Decode of another datagram, then all fields were replaced
+	provNewMessage           // message.NewMessage (only for version 2.0 and flags within 0x28)
+	nProv
+)
+
+var provNames = []string{"literal", "completed-after-plain-encode", "header-parsed-from-a-protected-datagram", "object-decoded-from-another-datagram", "NewMessage"}
+
+// a received protected datagram (header + SK payload with arbitrary ciphertext) and a cleartext one
+var (
+	someProtectedDatagram = func() []byte {
+		body := make([]byte, 4+16+32+12)
+		body[0], body[2], body[3] = abs.PNonce, 0, byte(len(body))
+		for i := 4; i < len(body); i++ {
+			body[i] = byte(i * 7)
+		}
+		h := []byte{1, 2, 3, 4, 5, 6, 7, 8, 8, 7, 6, 5, 4, 3, 2, 1, abs.PSK, 0x20, 35, 0x08, 0, 0, 0, 9, 0, 0, 0, byte(28 + len(body))}
+		return append(h, body...)
+	}()
+	someCleartextDatagram = []byte{1, 2, 3, 4, 5, 6, 7, 8, 0, 0, 0, 0, 0, 0, 0, 0, abs.PNonce, 0x20, 34, 0x08, 0, 0, 0, 0, 0, 0, 0, 28 + 4 + 20,
+		0, 0, 0, 24, 9, 9, 9, 9, 9, 9, 9, 9, 9, 9, 9, 9, 9, 9, 9, 9, 9, 9, 9, 9}
+)
+
+// buildMsgObject makes the library object for m with one of the histories above.
+func buildMsgObject(m *abs.Msg) (*message.IKEMessage, error) {
+	lm, err := bridge.BuildMsg(m)
+	if err != nil {
+		return nil, err
+	}
+	prov := int(abs.Hash64(fmt.Sprintf("%d/%d/%d/%d", m.MsgID, m.ISPI, len(m.Payloads), m.Exch)) % nProv)
+	set := func(h *message.IKEHeader) {
+		h.InitiatorSPI, h.ResponderSPI, h.MajorVersion, h.MinorVersion = m.ISPI, m.RSPI, m.Major, m.Minor
+		h.ExchangeType, h.Flags, h.MessageID = m.Exch, m.Flags, m.MsgID
+	}
+	switch prov {
+	case provPlainEncoded:
+		full := lm.Payloads
+		var stale message.IKEPayloadContainer
+		if len(full) > 0 {
+			stale = append(stale, full[0])
+		}
+		stale = append(stale, &message.Nonce{NonceData: []byte("stale stale stale")})
+		lm.Payloads = stale
+		if _, err := lm.Encode(); err != nil {
+			lm, _ = bridge.BuildMsg(m) // first payload alone not encodable here: leave the object fresh
+			prov = provLiteral
+			break
+		}
+		lm.Payloads = full
+	case provParsedHeader:
+		h, err := message.ParseHeader(append([]byte{}, someProtectedDatagram...))
+		if err != nil {
+			prov = provLiteral
+			break
+		}
+		set(h)
+		lm.IKEHeader = h
+	case provDecodedObject:
+		o := new(message.IKEMessage)
+		if err := o.Decode(append([]byte{}, someCleartextDatagram...)); err != nil {
+			prov = provLiteral
+			break
+		}
+		set(o.IKEHeader)
+		o.Payloads = lm.Payloads
+		lm = o
+	case provNewMessage:
+		if m.Major != 2 || m.Minor != 0 || m.Flags&^0x28 != 0 {
+			prov = provLiteral
+			break
+		}
+		lm = message.NewMessage(m.ISPI, m.RSPI, m.Exch, m.Flags&0x20 != 0, m.Flags&0x08 != 0, m.MsgID, lm.Payloads)
+	}
+	core.GlobalCount("msg_object_" + provNames[prov])
+	return lm, nil
+}
+
 // libEncode: abs -> library objects -> (*IKEMessage).Encode.
 func libEncode(m *abs.Msg) (b []byte, err error, p *core.Panic) {
 	p = core.Try(func() {
 		var lm *message.IKEMessage
-		lm, err = bridge.BuildMsg(m)
+		lm, err = buildMsgObject(m)
 		if err != nil {
 			err = fmt.Errorf("build: %w", err)
 			return
@@ -96,7 +180,7 @@ func role(initiator bool) message.Role {
 func libProtect(m *abs.Msg, key *security.IKESAKey, initiator bool) (b []byte, err error, p *core.Panic) {
 	p = core.Try(func() {
 		var lm *message.IKEMessage
-		lm, err = bridge.BuildMsg(m)
+		lm, err = buildMsgObject(m)
 		if err != nil {
 			err = fmt.Errorf("build: %w", err)
 			return
